@@ -631,11 +631,25 @@ func (sc c14Scenario) run(r Rng) (fails []Failure, extra [][3]string) {
 				err error
 			}
 			ch := make(chan acc, 1)
+			early := sc.id%2 == 1 && sc.fault == "" && len(sc.inbound) > 0 && len(sc.inbound[0]) > 0
+			if early {
+				// the station connects and sends its first frame before the application gets round
+				// to calling Accept (the listener registers itself asynchronously: leave it a moment)
+				time.Sleep(20 * time.Millisecond)
+				sim.say("TARGET " + sc.mycall)
+				sim.say("NEWSTATE IRS")
+				sim.say("CONNECTED " + sc.peer + " 500")
+				time.Sleep(10 * time.Millisecond)
+				sim.arq(sc.inbound[0])
+				time.Sleep(10 * time.Millisecond)
+			}
 			go func() { c, err := ln.Accept(); ch <- acc{c, err} }()
-			time.Sleep(3 * time.Millisecond)
-			sim.say("TARGET " + sc.mycall)
-			sim.say("NEWSTATE IRS")
-			sim.say("CONNECTED " + sc.peer + " 500")
+			if !early {
+				time.Sleep(3 * time.Millisecond)
+				sim.say("TARGET " + sc.mycall)
+				sim.say("NEWSTATE IRS")
+				sim.say("CONNECTED " + sc.peer + " 500")
+			}
 			select {
 			case a := <-ch:
 				if a.err != nil {
@@ -649,6 +663,32 @@ func (sc c14Scenario) run(r Rng) (fails []Failure, extra [][3]string) {
 			}
 			if conn.RemoteAddr().String() != sc.peer {
 				fail("accept", "remote address %q, expected %q", conn.RemoteAddr(), sc.peer)
+			}
+			if early {
+				var got []byte
+				done := make(chan struct{})
+				go func() {
+					defer close(done)
+					for len(got) < len(sc.inbound[0]) {
+						buf := make([]byte, 70000)
+						n, err := conn.Read(buf)
+						got = append(got, buf[:n]...)
+						if err != nil {
+							return
+						}
+					}
+				}()
+				select {
+				case <-done:
+				case <-time.After(3 * time.Second):
+					fail("read-stream", "the ARQ frame the station sent between CONNECTED and Accept never reached Read")
+					return
+				}
+				if !bytes.Equal(got, sc.inbound[0]) {
+					fail("read-stream", "frame sent between CONNECTED and Accept: Read yielded %s, sent %s", trunc(hexs(got)), trunc(hexs(sc.inbound[0])))
+					return
+				}
+				sc.inbound = sc.inbound[1:]
 			}
 		} else {
 			c, err := tnc.Dial(sc.peer)
